@@ -300,7 +300,7 @@ class Ctx:
     def report(self, cat, accept, detail, replay):
         prop = cat.split(":")[0]
         sig = cat
-        if prop not in accept:
+        if prop not in accept and cat not in accept:      # accept holds property ids and/or whole categories
             self.notes.append("mismatch of another property seen and not counted here: " + cat)
             return
         kf = match_known(self.prop, cat, replay)
